@@ -118,13 +118,16 @@ func readSide(c *hl.Ctx, s *session, cs rtmpCase) {
 		transferred = cs.At
 	} else {
 		l.FailRead, l.Partial = cs.At, cs.Part2
+		l.OneShot = cs.Fault == "oneshot"
 	}
+	swallowed := false
 	p := rtmp.NewProtocol(rtmpx.End{In: l, Out: rtmpx.NewLink()})
 	var got []*rtmp.Message
 	var err error
 	pn, pmsg, st := hl.TryStack(func() {
 		for {
 			var m *rtmp.Message
+			before := l.ReadCalls
 			switch cs.API {
 			case "ExpectMessage":
 				m, err = p.ExpectMessage()
@@ -137,6 +140,11 @@ func readSide(c *hl.Ctx, s *session, cs rtmpCase) {
 				m, err = p.ReadMessage()
 			}
 			if err != nil {
+				return
+			}
+			if cs.Fault == "oneshot" && before <= cs.At && l.ReadCalls > cs.At {
+				// the transport failed (no bytes delivered) during this call and the call returned success
+				swallowed = true
 				return
 			}
 			got = append(got, m)
@@ -156,6 +164,10 @@ func readSide(c *hl.Ctx, s *session, cs rtmpCase) {
 			return // the stream was consumed in fewer read calls: no fault happened
 		}
 		transferred = l.RPos
+	}
+	if swallowed {
+		c.Violation("rtmp-read/fault-swallowed", "a transport read failed (0 bytes, error) while the call was in progress and the call returned a message with a nil error; "+desc, cs)
+		return
 	}
 	if cs.API == "ExpectPacket" {
 		// nothing is ever returned; only the error is judged
@@ -353,6 +365,7 @@ func rtmpFaults(c *hl.Ctx, depth int, idx *int) {
 						for _, part := range []int{0, 3} {
 							readSide(c, s, rtmpCase{Part: "rtmp-read", Items: items, Fault: "inject", At: i, Mode: mode, Part2: part, API: "ReadMessage"})
 						}
+						readSide(c, s, rtmpCase{Part: "rtmp-read", Items: items, Fault: "oneshot", At: i, Mode: mode, API: "ReadMessage"})
 					}
 				}
 				// the wait APIs: cuts at item boundaries +-2 and a few interior offsets
@@ -464,7 +477,10 @@ func flvRead(c *hl.Ctx, f *flvFile, cs flvCase) {
 		l.EOFAt = cs.At
 	} else {
 		l.FailRead, l.Partial = cs.At, cs.Part2
+		l.OneShot = cs.Fault == "oneshot"
 	}
+	swallowed := ""
+	delivered := func(before int) bool { return cs.Fault == "oneshot" && before <= cs.At && l.ReadCalls > cs.At }
 	d, _ := flv.NewDemuxer(l)
 	desc := fmt.Sprintf("file with tags %+v (%d bytes, items end at %v), %s at %d (+%d), read mode %d", f.tags, len(f.wire), f.ends, cs.Fault, cs.At, cs.Part2, cs.Mode)
 	var err error
@@ -475,7 +491,12 @@ func flvRead(c *hl.Ctx, f *flvFile, cs flvCase) {
 	pn, pmsg, st := hl.TryStack(func() {
 		var v uint8
 		var hv, ha bool
+		b0 := l.ReadCalls
 		if v, hv, ha, err = d.ReadHeader(); err != nil {
+			return
+		}
+		if delivered(b0) {
+			swallowed = "ReadHeader"
 			return
 		}
 		gotHeader = true
@@ -486,12 +507,22 @@ func flvRead(c *hl.Ctx, f *flvFile, cs flvCase) {
 		for len(got) <= len(f.tags) {
 			var tt flv.TagType
 			var sz, ts uint32
+			b1 := l.ReadCalls
 			if tt, sz, ts, err = d.ReadTagHeader(); err != nil {
+				return
+			}
+			if delivered(b1) {
+				swallowed = "ReadTagHeader"
 				return
 			}
 			partialHeaderOnly = true
 			var b []byte
+			b2 := l.ReadCalls
 			if b, err = d.ReadTag(sz); err != nil {
+				return
+			}
+			if delivered(b2) {
+				swallowed = "ReadTag"
 				return
 			}
 			partialHeaderOnly = false
@@ -510,6 +541,10 @@ func flvRead(c *hl.Ctx, f *flvFile, cs flvCase) {
 			return // no fault happened
 		}
 		transferred = l.RPos
+	}
+	if swallowed != "" {
+		c.Violation("flv-read/fault-swallowed/"+swallowed, "a transport read failed (0 bytes, error) while "+swallowed+" was in progress and it returned success; "+desc, cs)
+		return
 	}
 	wantHeader := f.ends[0] <= transferred
 	if gotHeader != wantHeader && !(transferred >= 9 && transferred < 13) {
@@ -606,6 +641,7 @@ func flvFaults(c *hl.Ctx, depth int, idx *int) {
 					for _, part := range []int{0, 2} {
 						flvRead(c, f, flvCase{Part: "flv-read", Tags: tags, Fault: "inject", At: i, Mode: mode, Part2: part})
 					}
+					flvRead(c, f, flvCase{Part: "flv-read", Tags: tags, Fault: "oneshot", At: i, Mode: mode})
 				}
 			}
 			for j := 0; j < len(f.wsz); j++ {
